@@ -195,7 +195,8 @@ class RealRun(Harness):
     positions): both yield a block, the exit status is the ranked maximum and JSON stdout is ONE well-formed array with one element per target."""
     prop, ob = PROP, 'O3'
     width = 64
-    BAD = ['refused', 'unresolvable', 'silent', 'early-close', 'bad-block-size', 'truncated-kexinit', 'garbage-kexinit', 'probe-garbage', 'type-byte-only-kexinit', 'probe-type-byte-only']
+    BAD = ['refused', 'unresolvable', 'silent', 'early-close', 'bad-block-size', 'truncated-kexinit', 'garbage-kexinit', 'probe-garbage', 'type-byte-only-kexinit', 'probe-type-byte-only',
+           'ssh1-fallback']
 
     def __init__(self, bad, pos, json):
         self.bad, self.pos, self.json = bad, pos, json
@@ -227,6 +228,9 @@ class RealRun(Harness):
             bad = [AE.Conn([BANNER, kp[:20] + inp['x']], 'close')]
         elif b == 'garbage-kexinit':
             bad = [AE.Conn([BANNER, AE.frame(bytes([20]) + b'\x00' * 16 + b'\xff\xff\xff\xff' + inp['x'])], 'close')]
+        elif b == 'ssh1-fallback':
+            # the peer asks for the other protocol version in plain text; the retry over SSH-1 is answered by a close
+            bad = [AE.Conn([BANNER, b'Protocol major versions differ.\n'], 'close'), AE.Conn([b'SSH-1.5-old\r\n'], 'close')]
         elif b == 'type-byte-only-kexinit':
             bad = [AE.Conn([BANNER, AE.frame(b'\x14')], 'close')]
         elif b == 'probe-type-byte-only':
